@@ -143,21 +143,49 @@ package xmss
 //@ func CalcBaseW
 //@   requires wotsOK(params) && len(output) >= outputLen && 8*len(input) >= outputLen*params.logW
 //@   ensures forall k_ :: 0 <= k_ && k_ < outputLen ==> output[k_] <= params.w - 1
+//@   ensures[XF] forall k_ :: 0 <= k_ && k_ < outputLen ==> output[k_] == spec.bwdig(input, k_, params.logW)
 //@   assigns output[0:outputLen]
 //@   loop 1 invariant 0 <= consumed && consumed <= outputLen && out == consumed && 0 <= in && bits <= 8 && bits % params.logW == 0
 //@   loop 1 invariant 8*in == consumed*params.logW + bits
+//@   loop 1 invariant[XF] bits > 0 ==> total == input[in-1]
+//@   loop 1 invariant[XF] forall k_ :: 0 <= k_ && k_ < consumed ==> output[k_] == spec.bwdig(input, k_, params.logW)
+//@   loop 1 assert[XF] total == input[in-1] && 8*in == (consumed+1)*params.logW + bits && bits < 8
+//@   loop 1 assert[XF] params.logW == 8 ==> output[consumed] == input[consumed]
+//@   loop 1 assert[XF] params.logW == 4 ==> in - 1 == consumed / 2 && (consumed % 2 == 0 ==> bits == 4) && (consumed % 2 == 1 ==> bits == 0)
+//@   loop 1 assert[XF] params.logW == 4 ==> output[consumed] == ite(consumed % 2 == 0, input[consumed/2] / 16, input[consumed/2] % 16)
+//@   loop 1 assert[XF] params.logW == 2 ==> in - 1 == consumed / 4 && bits == 6 - 2*(consumed % 4)
+//@   loop 1 assert[XF] params.logW == 2 ==> output[consumed] == ite(consumed % 4 == 0, input[consumed/4] / 64, ite(consumed % 4 == 1, (input[consumed/4] / 16) % 4, ite(consumed % 4 == 2, (input[consumed/4] / 4) % 4, input[consumed/4] % 4)))
+//@   loop 1 assert[XF] output[consumed] == spec.bwdig(input, consumed, params.logW)
 //@   loop 1 invariant forall k_ :: 0 <= k_ && k_ < consumed ==> output[k_] <= params.w - 1
 //@   loop 1 invariant forall q :: q < 0 || q >= outputLen ==> output[q] == old(output[q])
 
+// WOTS+ public key from signature (RFC 8391 Algorithm 6): digit i is base-w digit i of the message for i < len1 and
+// base-w digit i-len1 of toByte(csum << (8 - (len2*lg w) % 8), ceil(len2*lg w / 8)) otherwise; chain i runs from the
+// digit to w-1 under the address with chain word i.
+//@ pred wShift(p) := 8 - ((p.len2 * p.logW) % 8)
+//@ pred wBytes(p) := (p.len2 * p.logW + 7) / 8
+//@ pred wCsum(msg, p) := (spec.wsum(msg, p.len1, p.logW, p.w) * spec.pow2(wShift(p))) % 4294967296
+//@ pred wDigit(msg, p, i) := ite(i < p.len1, spec.bwdig(msg, i, p.logW), spec.bwdig(spec.toByteN(wCsum(msg, p), wBytes(p)), 0, i - p.len1, p.logW))
+//@ lemma xmss.L_chain_cong[XF] induction k uses xmss.L_randF_cong : forall k, hf, PS:arr, A1:arr, A2:arr, X:arr, s :: (forall w_ :: 0 <= w_ && w_ < 6 ==> A1[w_] == A2[w_]) ==> spec.chain(hf, PS, A1, X, s, k) == spec.chain(hf, PS, A2, X, s, k)
+//@ pred wpkByte(hf, pubSeed, A, sig, msg, p, pp) := spec.chain(hf, spec.sub(pubSeed, 32), store(A, 5, pp/32), spec.sub(sig[32*(pp/32):], 32), wDigit(msg, p, pp/32), p.w - 1 - wDigit(msg, p, pp/32))[pp%32]
 //@ func wotsPKFromSig
+//@   use xmss.L_chain_cong
 //@   requires wotsOK(wotsParams) && len(pk) >= wotsParams.keySize && len(sig) >= wotsParams.keySize && len(msg) >= 32 && len(pubSeed) >= 32
 //@   ensures forall k_ :: 0 <= k_ && k_ < 5 ==> addr[k_] == old(addr[k_])
+//@   ensures[XF] hashfunction <= 2 ==> forall p_ :: 0 <= p_ && p_ < 32*wotsParams.len ==> pk[p_] == wpkByte(hashfunction, pubSeed, arr(old(addr)), sig, msg, wotsParams, p_)
 //@   assigns pk, *addr
+//@   after misc.ToByteLittleEndian 1 assert[XF] forall d_ :: 0 <= d_ && d_ < wBytes(wotsParams) ==> cSumBytes[d_] == spec.toByteN(wCsum(msg, wotsParams), wBytes(wotsParams))[d_]
+//@   after xmss.CalcBaseW 2 assert[XF] forall k_ :: 0 <= k_ && k_ < XMSSWOTSLEN2 ==> cSumBaseW[k_] == spec.bwdig(spec.toByteN(wCsum(msg, wotsParams), wBytes(wotsParams)), 0, k_, XMSSWOTSLOGW)
 //@   loop 1 invariant 0 <= i && i <= XMSSWOTSLEN1
+//@   loop 1 invariant[XF] cSum == spec.wsum(msg, i, XMSSWOTSLOGW, XMSSWOTSW) && cSum <= i * (XMSSWOTSW - 1)
 //@   loop 2 invariant 0 <= i && i <= XMSSWOTSLEN2
 //@   loop 2 invariant forall k_ :: 0 <= k_ && k_ < XMSSWOTSLEN1 + i ==> baseW[k_] <= XMSSWOTSW - 1
+//@   loop 2 invariant[XF] forall k_ :: 0 <= k_ && k_ < XMSSWOTSLEN1 + i ==> baseW[k_] == wDigit(msg, wotsParams, k_)
 //@   loop 3 invariant 0 <= i && i <= XMSSWOTSLEN && forall k_ :: 0 <= k_ && k_ < 5 ==> addr[k_] == old(addr[k_])
 //@   loop 3 invariant forall k_ :: 0 <= k_ && k_ < XMSSWOTSLEN ==> baseW[k_] <= XMSSWOTSW - 1
+//@   loop 3 invariant[XF] forall k_ :: 0 <= k_ && k_ < XMSSWOTSLEN ==> baseW[k_] == wDigit(msg, wotsParams, k_)
+//@   loop 3 assert[XF] hashfunction <= 2 ==> forall q_ :: 0 <= q_ && q_ < 32 ==> pk[32*i+q_] == spec.chain(hashfunction, spec.sub(pubSeed, 32), store(arr(old(addr)), 5, i), spec.sub(sig[32*i:], 32), wDigit(msg, wotsParams, i), wotsParams.w - 1 - wDigit(msg, wotsParams, i))[q_]
+//@   loop 3 invariant[XF] hashfunction <= 2 ==> forall p_ :: 0 <= p_ && p_ < 32*i ==> pk[p_] == wpkByte(hashfunction, pubSeed, arr(old(addr)), sig, msg, wotsParams, p_)
 
 //@ func lTree
 //@   requires wotsOK(params) && len(wotsPK) >= params.keySize && len(leaf) >= 32 && len(pubSeed) >= 32
